@@ -515,3 +515,27 @@ Definition site_ok (s : asite) : bool :=
 Lemma fold_left_map {A B C} (f : A -> C -> A) (h : B -> C) l a :
   fold_left (fun m g => f m (h g)) l a = fold_left f (map h l) a.
 Proof. revert a; induction l as [|x l IH]; intros a; cbn; [reflexivity|apply IH]. Qed.
+
+(* ================================================================== 5. the engine side of -enable / -disable *)
+(* ir_loader.go:loadRuleGroup, as far as the group's name is concerned: go2coq regenerates the order of these steps *)
+Inductive fsite := FsName | FsPrefix | FsFilterReturnsNil | FsRegister.
+
+(* the name a group is registered (and later reported) under: bundle groups carry the ImportRules prefix *)
+Definition final_name (prefix name : bytes) : bytes :=
+  match prefix with [] => name | _ => prefix ++ [47] ++ name end.
+
+(* Some (Some n): registered under n; Some None: skipped by the filter; None: neither happened *)
+Fixpoint load_group_head (sites : list fsite) (prefix name : bytes) (filter : bytes -> bool) (cur : bytes) : option (option bytes) :=
+  match sites with
+  | [] => None
+  | FsName :: r => load_group_head r prefix name filter name
+  | FsPrefix :: r => load_group_head r prefix name filter (match prefix with [] => cur | _ => prefix ++ [47] ++ cur end)
+  | FsFilterReturnsNil :: r => if filter cur then load_group_head r prefix name filter cur else Some None
+  | FsRegister :: r => Some (Some cur)
+  end.
+
+(* what C19 needs from the engine: a group is kept iff the filter accepts the very name it is registered under *)
+Definition filter_sees_final_name (sites : list fsite) : Prop :=
+  forall prefix name filter,
+    load_group_head sites prefix name filter [] =
+    Some (if filter (final_name prefix name) then Some (final_name prefix name) else None).
